@@ -115,7 +115,7 @@ theorem C15_run_inspects (E : Asm.Engine) (cfg : Asm.Config) (o1 o2 : Parser.Ord
     · simp only [hc] at hg
       split at hg
       · split at hg
-        · simp at hg
+        · split at hg <;> (simp only [Option.some.injEq] at hg; subst hg; rfl)
         · simp only [Option.some.injEq] at hg; subst hg
           simp only [generateCmd]
           split
